@@ -22,6 +22,16 @@ fn main() {
         checks::c15::r7dump(args.get(2).map(|s| s.as_str()).unwrap_or("/dev/stdout"));
         return;
     }
+    if args.get(1).map(|s| s.as_str()) == Some("parse") {
+        engine::install_panic_hook();
+        for s in &args[2..] {
+            println!("{s:?}");
+            for g in checks::c12::GOALS {
+                println!("  {:<11} model={:?}  impl={}", format!("{g:?}"), checks::c12::model(g, s), checks::c12::implementation(g, s).describe());
+            }
+        }
+        return;
+    }
     if args.get(1).map(|s| s.as_str()) == Some("bench") {
         bench::bench();
         return;
